@@ -229,3 +229,26 @@ def generate_c16(repo):
     except SyntaxError as e:
       errors.append((fn.qual, repr(e)))
   return "\n".join(out), errors
+
+
+# ---------------------------------------------------------------------------------------------
+# C04: the scheduled preconditioner interval
+# ---------------------------------------------------------------------------------------------
+SCHEDULE = Fn("preconditioning_compute_steps_schedule", "compute_steps_schedule",
+              [("base_lr_", "Q"), ("lr_", "Q"), ("start_preconditioning_compute_steps", "Z"),
+               ("end_preconditioning_compute_steps", "Z")], "Q",
+              subst={"lr_fn(0)": ("base_lr_", "Q"), "lr_fn(step)": ("lr_", "Q")},
+              drop_params=("lr_fn", "step"))
+
+
+def generate_c04(repo):
+  from tools import py2v, py2v_float
+  header = ("From Precond Require Import Base.PyLib Base.QMat Base.PyFloat.\nFrom Coq Require Import Qround.\n"
+            "Open Scope Q_scope.\n")
+  try:
+    src = open(os.path.join(repo, DS)).read()
+    return header + "\n" + py2v_float.translate(src, SCHEDULE) + "\n", []
+  except py2v.TranslationError as e:
+    return header, [(SCHEDULE.qual, str(e))]
+  except (OSError, SyntaxError) as e:
+    return header, [(SCHEDULE.qual, repr(e))]
